@@ -71,8 +71,10 @@ Definition initial (s : string) : string := match s with EmptyString => "" | Str
 Definition pkg_initials (package : list string) (version : string) : string :=
   sconcat (map (fun comp => if String.eqb comp version then ""
                             else sconcat (map initial (split_on "_"%char comp))) package).
+(* modules the emitted service code itself imports under their bare names (regenerated list): a types module of that name is aliased too *)
+Definition imported_name (m : string) : bool := mem_str m IMPORTED_MODULE_NAMES.
 Definition module_alias (package : list string) (version module : string) (collides : bool) : string :=
-  if collides || reserved module then pkg_initials package version ++ "_" ++ module else "".
+  if collides || reserved module || imported_name module then pkg_initials package version ++ "_" ++ module else "".
 
 (* ---- protobuf ToJsonName: drop underscores, upper-case the next character ---- *)
 Fixpoint to_json_name_aux (cap : bool) (s : string) : string :=
